@@ -34,7 +34,8 @@ Inductive dop :=
 | DListAlarms (ids : list id)        (* S5F5 *)
 | DListEnabled                       (* S5F7 *)
 | DSetAlarm (alid : id) | DClearAlarm (alid : id)     (* equipment side *)
-| DUpdateSV (svid : id) (v : Z).     (* equipment side *)
+| DUpdateSV (svid : id) (v : Z)      (* equipment side *)
+| DReqAlarmSVs.                      (* S1F3 for the status variables AlarmsEnabled and AlarmsSet *)
 
 Inductive dout :=
 | DValues (vs : list (option Z))                       (* None: the empty item of an unknown id *)
@@ -44,6 +45,7 @@ Inductive dout :=
 | DAck (code : Z)
 | DAlarms (als : list (id * Z * string))                (* ALID, ALCD (bit 8 = set), ALTX *)
 | DReport (alcd : Z) (alid : id)                        (* S5F1 sent *)
+| DAlarmLists (enabled set : list id)                   (* the values of AlarmsEnabled and AlarmsSet *)
 | DNone | DAbort.
 
 Definition ALARM_SET := 128.
@@ -99,6 +101,8 @@ Definition e5d_step (t : dtab) (o : dop) : option (dtab * list (list dout)) :=
   | DUpdateSV k v =>
     Some ({| ecs := ecs t; alarms := alarms t;
              svs := map (fun p => if id_eqb (fst p) k then (fst p, {| sv_name := sv_name (snd p); sv_unit := sv_unit (snd p); sv_value := v |}) else p) (svs t) |}, [[DNone]])
+  | DReqAlarmSVs =>      (* E30: AlarmsEnabled / AlarmsSet hold the list of the alarms currently enabled / currently set *)
+    Some (t, [[DAlarmLists (map fst (filter (fun p => al_enabled (snd p)) (alarms t))) (map fst (filter (fun p => al_set (snd p)) (alarms t)))]])
   end.
 
 (* every constant with a declared range holds a value inside it *)
